@@ -844,6 +844,28 @@ def release_read_sets(prog):
 RELEASE_SKIP = ("cif_value_free", "cif_value_clean")
 
 
+def must_assign_sets(prog):
+    """(function, parameter index) -> fields `p->f` the function assigns on every path to its exit (initialiser helpers)."""
+    cache = getattr(prog, "_must_assign", None)
+    if cache is not None:
+        return cache
+    out = {}
+    for fn in prog.all_functions():
+        for idx, prm in enumerate(fn.params):
+            if "*" not in (prm.get("t") or ""):
+                continue
+            by_field = {}
+            for (b, i, r, a) in fn.eval_sites("asg"):
+                l = strip(a.get("lhs"))
+                if isinstance(l, dict) and l.get("k") == "member" and l.get("arrow") and path(strip(l.get("base"))) == prm["name"] and a.get("op") == "=":
+                    by_field.setdefault(l["name"], []).append((b.id, i))
+            fields = {f for f, sites in by_field.items() if cfgq.must_follow(fn, (fn.entry, -1), sites)}
+            if fields:
+                out[(fn.name, idx)] = fields
+    prog._must_assign = out
+    return out
+
+
 def release_sees_initialised(prog, rule):
     """x = malloc(sizeof *x) ... release(x): every field of x that the release function reads must have been assigned on
     every path from the allocation to the call (an out-parameter `&x->f` handed to a callee does not count: the callee may
@@ -878,6 +900,11 @@ def release_sees_initialised(prog, rule):
                     stores = [(b2.id, i2) for (b2, i2, r2, a) in fn.eval_sites("asg")
                               if (path(strip(a.get("lhs"))) or "") == "%s->%s" % (x, f) or (path(strip(a.get("lhs"))) or "").startswith("%s->%s." % (x, f))]
                     stores += zero_fills
+                    # initialiser helpers: x handed to a function that assigns the field on all of its paths
+                    for (b2, i2, r2, c2) in fn.calls():
+                        for k2, a2 in enumerate(c2.get("args", [])):
+                            if path(strip(a2)) == x and f in must_assign_sets(prog).get((c2.get("callee"), k2), ()):
+                                stores.append((b2.id, i2))
                     mf = cfgq.MustFact(fn, gen_sites=stores, kill_sites=[(ab, ai)], entry_value=False)
                     if not mf.at(b.id, i):
                         missing.append(f)
@@ -1000,9 +1027,18 @@ def out_param_not_dangling(prog, rule):
             a = strip(c["args"][0])
             if not (isinstance(a, dict) and a.get("k") == "un" and a.get("op") == "*" and path(strip(a.get("e"))) in params):
                 continue
-            n += 1
             out = path(strip(a.get("e")))
             restores = [(b2.id, i2) for (b2, i2, r2, a2) in fn.eval_sites("asg") if path(strip(a2.get("lhs"))) == "*" + out]
+            # a `T **` that the function only reads (a cursor into an array of strings) is not an out-parameter; one it
+            # advances (`end -= 1`) is a local cursor as well
+            advanced = any(path(strip(x.get("lhs") if x.get("k") == "asg" else x.get("e"))) == out
+                           for (b2, i2, r2, x) in fn.eval_sites() if x.get("k") == "asg" or (x.get("k") == "un" and x.get("op") in ("post++", "post--", "pre++", "pre--")))
+            if advanced:
+                continue
+            is_public_out = any(d["file"].endswith("cif.h") or d["file"].endswith("utils.h") for d in prog.decls.get(fn.name, []))
+            if not restores and not is_public_out:
+                continue
+            n += 1
             key = "%s:%s(*%s)@L%s" % (fn.name, g, out, c.get("l"))
             if restores and cfgq.must_follow(fn, (b.id, i), restores):
                 rule.ok(key, "*%s is re-assigned on every path to the exit" % out)
